@@ -75,10 +75,12 @@ package messages
 
 // A PAC found in the ticket is reported without error only if it has the mandatory buffers and its server signature
 // verifies under a keytab key matching the (override) service principal, realm, kvno and etype of the ticket
-// (property C19).
+// (property C19). Every error it returns concerns a PAC that was found (undecodable elements are skipped), and is
+// reported as such: callers refuse the request on "is a PAC and failed".
 //@ func (*messages.Ticket).GetPACType(t, kt, sname, l) (isPAC, pac, err)
 //@   pure
-//@   sets lastPACBad := isPAC && err != nil
+//@   sets lastPACBad := err != nil
+//@   ensures err != nil ==> isPAC
 //@   ensures isPAC && err == nil ==> pac.KerbValidationInfo != nil && pac.ServerChecksum != nil && pac.KDCChecksum != nil && pac.ClientInfo != nil
 //@   ensures isPAC && err == nil ==> exists j int, ct Ref :: 0 <= j && j < len(kt.Entries) && kmatch(kt.Entries[j], ite(sname != nil, *sname, t.SName), t.Realm, t.EncPart.KVNO, t.EncPart.EType)
 //@        && cksum_etype_ok(int32(pac.ServerChecksum.SignatureType), ct) && bytes(pac.ServerChecksum.Signature) == et_cksum(ct, bytes(kt.Entries[j].Key.KeyValue), 17, bytes(pac.ZeroSigData))
